@@ -264,6 +264,7 @@ def main(argv=None):
     violations = []
     known = []
     undecided = []
+    g0_hits = []
     # guard G-M is advisory: its generic mutation operators (comparison / arithmetic / constant /
     # dropped statement / dropped forwarded argument) need not touch what a narrow view of a function
     # states (e.g. the order of two calls), so "no mutant killed" is reported, recorded in the
@@ -311,7 +312,12 @@ def main(argv=None):
             continue
         floor = max(c.min_obligations, FLOORS.get(r['qualname'], 0)) if c.min_obligations else 0
         if len(obs) < floor:
-            errors.append(f"{r['qualname']}: guard G-0: {len(obs)} obligations < floor {floor}")
+            # guard G-0: far fewer obligations than on the tree the contract was written for - the view no
+            # longer matches the function (e.g. its worker pool was rewritten): nothing is claimed about it
+            undecided.append(f"{r['qualname']}: guard G-0: {len(obs)} obligations < floor {floor}: the contract "
+                             f"no longer matches the function (contract out of date)")
+            g0_hits.append(r['qualname'])
+            continue
         for o in obs:
             by_backend[o['backend']] = by_backend.get(o['backend'], 0) + 1
             if o.get('cvc5_cross'):
@@ -329,6 +335,8 @@ def main(argv=None):
                         verdict=o['verdict'], backend=o['backend'], reason=o.get('reason'),
                         model=o.get('model'), src=o.get('src'), replay=o.get('replay'))
             violations.append(('obligation', fail))
+    if n_ob == 0 and proved_cs and not undecided:
+        errors.append("guard G-0: no obligation was generated for any function of this property")
     for nres in natives + bounded:
         if nres.get('error'):
             errors.append(f"{nres['function']}: native check crashed: {nres['error'][:600]}")
